@@ -73,5 +73,11 @@ if kind == 'refactors':
 else:
     print(f'{sum(1 for v in out.values() if v["own_check"])}/{n} detected by the property\'s own check, '
           f'{sum(1 for v in out.values() if v["detected_by"])}/{n} by some check')
+res_path = os.path.join(root, 'CORPUS.json' if kind == 'seeded' else 'RESULTS.json')
 if not only:
-    json.dump(out, open(os.path.join(root, 'CORPUS.json' if kind == 'seeded' else 'RESULTS.json'), 'w'), indent=1)
+    json.dump(out, open(res_path, 'w'), indent=1)
+elif os.path.exists(res_path):
+    # a filtered run updates the entries it covered
+    allr = json.load(open(res_path))
+    allr.update(out)
+    json.dump(allr, open(res_path, 'w'), indent=1)
